@@ -273,7 +273,14 @@ def _serialize_attr(x: object) -> str:
         )
     if isinstance(x, dict):
         x1: dict[str, Any] = x  # make pyright happy
-        return "{" + ", ".join([f'"{y}": ' + _serialize_attr(x1[y]) for y in x1]) + "}"
+        # Keys are written like string values, i.e. with double quotes escaped.
+        return (
+            "{"
+            + ", ".join(
+                [_serialize_attr(str(y)) + ": " + _serialize_attr(x1[y]) for y in x1]
+            )
+            + "}"
+        )
     if isinstance(x, bool):
         return str(x).lower()
     if isinstance(x, (jsx, int, float)):
